@@ -192,6 +192,39 @@ def _first_div0_transparent(sh, sigma):
         return False
 
 
+def _huge_values_reach_the_root(sh, sigma):
+    """every sub-expression that contains a value beyond ~1e300 is itself beyond ~1e300: the magnitude is
+    carried all the way up.  Otherwise (a huge value cancelled by subtraction, divided by, raised to 0, fed
+    to sgn) IEEE arithmetic may legitimately arrive at any finite number via rounding, inf or nan."""
+    big = Fraction(10) ** 300
+
+    def walk(s):
+        # -> (subtree contains a huge value, closure holds)
+        if s is None:
+            return False, True
+        if s[0] in ("Constant", "Variable"):
+            try:
+                return abs(X.ev(s, sigma).v) > big, True
+            except Exception:
+                return False, False
+        hl, okl = walk(s[2])
+        hr, okr = walk(s[3])
+        if not (okl and okr):
+            return True, False
+        try:
+            mine = abs(X.ev(s, sigma).v) > big
+        except Exception:
+            return True, False
+        if (hl or hr) and not mine:
+            return True, False
+        return mine or hl or hr, True
+
+    try:
+        return walk(sh)[1]
+    except RecursionError:
+        return False
+
+
 def decide(prop, node, sh, context, res, exc, ctx_type=None):
     rec = core.REC
     problems = S.audit(node, expr=True) if node.parent is None else S.audit(S.build(sh), expr=True)
@@ -252,10 +285,10 @@ def decide(prop, node, sh, context, res, exc, ctx_type=None):
                 want = X.ev(sh, sigma) if X.magnitude_bits(sh, sigma, limit=20000) is not None else None
             except X.Undef:
                 want = None
-            if want is not None and not want.approx and not want.ill and abs(want.v) > Fraction(10) ** 200:
+            if want is not None and not want.approx and not want.ill and abs(want.v) > Fraction(10) ** 200 and _huge_values_reach_the_root(sh, sigma):
                 rec.arm("eval:overflow-region:finite-answer-checked")
                 off = abs(Fraction(res) - want.v)
-                if off > abs(want.v) / 2:
+                if off > abs(want.v) / 2 and off > want.s / 10 ** 9:
                     bad("eval/float/wrong-value", "floating-point evaluation is off by more than rounding",
                         f"returned the finite number {_r(res)[:40]} for an expression whose exact value is about 10^{len(str(abs(want.v.numerator) // want.v.denominator)) - 1} (beyond the floats: an error, inf or nan would be understandable)")
                 return
